@@ -48,6 +48,19 @@ BOOLOPS = (ast.And, ast.Or)
 UNARYOPS = (ast.Invert, ast.Not, ast.UAdd, ast.USub)
 CMPOPS = (ast.Eq, ast.NotEq, ast.Lt, ast.LtE, ast.Gt, ast.GtE, ast.Is, ast.IsNot, ast.In, ast.NotIn)
 
+# callees of generated calls with keyword arguments (see full_exprs): they resolve through imports of the module prelude or
+# to members of the module, so `ExprKeyword.canonical_path` (`path.to.callee(param)`) differs from what is written
+CALLEES = (
+    ["name", "P"],
+    ["name", "wraps"],
+    ["attr", ["name", "ospath"], "join"],
+    ["attr", ["name", "functools"], "partial"],
+    ["name", "f"],
+    ["name", "A"],
+    ["attr", ["name", "C"], "f"],
+    ["name", "ff"],
+)
+
 # real modules for `import x` / `from x import y`
 EXT_IMPORTS = (("typing", None), ("os.path", "osp"), ("collections.abc", None), ("enum", None), ("os.path", None))
 EXT_FROM = (
@@ -140,6 +153,14 @@ def full_exprs(max_leaves: int = 8, *, annotation_safe: bool = False):
             st.tuples(sub, sub, gens, st.lists(st.tuples(st.just("k"), sub).map(list), max_size=1)).map(
                 lambda t: ["call", t[0], [["genexp", t[1], t[2]]], t[3]],
             ),
+            # calls with keyword arguments whose callee resolves to an object with another canonical path: aliased
+            # from-import (P -> functools.partial), from-import (wraps), aliased module (ospath.join -> os.path.join),
+            # module attribute chain (functools.partial), members of the module / class (f, A, C.f)
+            st.tuples(
+                st.sampled_from(CALLEES),
+                st.lists(sub, max_size=1),
+                st.lists(st.tuples(st.sampled_from(("k", "a", "maxsize")), sub).map(list), min_size=1, max_size=2, unique_by=lambda kv: kv[0]),
+            ).map(lambda t: ["call", t[0], t[1], t[2]]),
             st.tuples(st.just("dictcomp"), sub, sub, gens).map(list),
             st.lists(st.sampled_from(("txt ", "it's", "{", "")) | fmt, min_size=1, max_size=3).map(lambda ps: ["joined", ps]),
             st.tuples(st.just("subscript"), sub, index).map(list),
@@ -187,6 +208,12 @@ def safe_values(max_leaves: int = 5):
             st.tuples(st.just("binop"), st.sampled_from((0, 9, 12)), ints, ints).map(list),  # + * - on small ints
             st.tuples(st.just("call"), st.sampled_from(("dict", "list", "str", "object")).map(lambda n: ["name", n]), st.just([]), st.just([])).map(list),
             st.tuples(st.just("call"), st.just(["name", "dict"]), st.just([]), st.lists(st.tuples(st.sampled_from(("k", "a")), sub).map(list), min_size=1, max_size=2, unique_by=lambda kv: kv[0])).map(list),
+            st.tuples(
+                st.just("call"),
+                st.sampled_from((["name", "P"], ["attr", ["name", "functools"], "partial"])),
+                st.just([["name", "dict"]]),
+                st.lists(st.tuples(st.sampled_from(("k", "a")), sub).map(list), min_size=1, max_size=2, unique_by=lambda kv: kv[0]),
+            ).map(list),
             st.lists(st.sampled_from(("txt ", "it's")) | st.tuples(st.just("fmt"), lits, st.sampled_from((-1, 115, 114)), st.none()).map(list), min_size=1, max_size=2).map(lambda ps: ["joined", ps]),
             st.tuples(st.just("listcomp"), st.just(["name", "i"]), st.just([[["name", "i"], ["call", ["name", "range"], [["const", 2]], []], [], False]])).map(list),
             st.sampled_from(("list", "sorted", "tuple")).map(
@@ -648,6 +675,8 @@ class _ModRenderer:
         if mod["future"]:
             s.add(0, "from __future__ import annotations")
         s.add(0, "import typing, functools, abc, dataclasses")
+        s.add(0, "import os.path as ospath")
+        s.add(0, "from functools import partial as P, wraps")
         self.body(0, mod["body"], in_class=None)
         return s.text()
 
